@@ -13,7 +13,45 @@ def sh(cmd, cwd=None, timeout=1800, env=None):
     p = subprocess.run(cmd, shell=True, cwd=cwd, env=env or ENV, stdout=subprocess.PIPE, stderr=subprocess.STDOUT, text=True, timeout=timeout)
     return p.returncode, p.stdout
 
+def recheck(sid, checks):
+    """seed_confirm.py --recheck <seed-id> <checks...>: apply the saved patch on HEAD in a scratch worktree,
+    run the checks again (after a check was strengthened) and merge the outcome into meta.json"""
+    dst = os.path.join(V, "seeded", sid)
+    wt = "/tmp/seedwt_" + sid
+    sh("git -C /repo worktree remove --force %s" % wt)
+    sh("git -C /repo worktree add -f --detach %s HEAD" % wt)
+    rc, o = sh("git apply %s" % os.path.join(dst, "patch.diff"), cwd=wt)
+    if rc != 0:
+        print("PATCH DOES NOT APPLY on HEAD:", o)
+        sh("git -C /repo worktree remove --force %s" % wt)
+        sys.exit(2)
+    meta = json.load(open(os.path.join(dst, "meta.json")))
+    res = meta.get("checks_against_change", {})
+    for c in checks:
+        env = dict(os.environ, VERIF_REPO=wt)
+        rc, o = sh("python3 bin/check %s --tier quick" % c, cwd=V, env=env, timeout=3000)
+        lines = [l for l in o.splitlines() if l.startswith("VIOLATION") or l.startswith(c + " ")]
+        if c in res and res[c]["rc"] == 0 and rc != 0:
+            meta.setdefault("first_missed_by", [])
+            if c not in meta["first_missed_by"]:
+                meta["first_missed_by"].append(c)
+        res[c] = {"rc": rc, "lines": lines}
+        for l in lines:
+            if l.startswith("VIOLATION"):
+                rp = [t for t in l.split() if t.startswith("replay=")]
+                if rp and os.path.exists(rp[0][7:]):
+                    shutil.copy(rp[0][7:], os.path.join(dst, "replay_%s.json" % c))
+        print(c, rc, lines)
+    meta["checks_against_change"] = res
+    meta["caught_by"] = [c for c, r in res.items() if r["rc"] != 0]
+    meta["repo_head"] = sh("git -C /repo rev-parse --short HEAD")[1].strip()
+    json.dump(meta, open(os.path.join(dst, "meta.json"), "w"), indent=1)
+    sh("git -C /repo worktree remove --force %s" % wt)
+
+
 def main():
+    if sys.argv[1] == "--recheck":
+        return recheck(sys.argv[2], sys.argv[3:])
     sid, src, checks = sys.argv[1], sys.argv[2], sys.argv[3:]
     # re-base the change on /repo's current HEAD in a fresh worktree (the author's worktree may be stale)
     wt = "/tmp/seedwt_" + sid
@@ -28,6 +66,8 @@ def main():
         if os.path.isfile(f):
             os.makedirs(os.path.dirname(os.path.join(wt, rel)) or wt, exist_ok=True)
             shutil.copy(f, os.path.join(wt, rel))
+        elif os.path.isdir(f):
+            shutil.copytree(f, os.path.join(wt, rel), dirs_exist_ok=True)
     meta = json.load(open(os.path.join(wt, "SEED_meta.json")))
     demo = meta.get("demo_cmd") or meta.get("demo")
     out = {"seed": sid, "property": meta.get("property"), "summary": meta.get("summary"), "needs": meta.get("needs"),
